@@ -91,6 +91,15 @@ pub fn str_ends_with_char(s: &str, p: char) -> (r: bool)
     ensures r ==> s@.len() > 0,
 { s.ends_with(p) }
 
+#[verifier::external_body]
+pub fn str_contains_char(s: &str, p: char) -> (r: bool)
+    ensures r == s@.contains(p),
+{ s.contains(p) }
+#[verifier::external_body]
+pub fn str_contains_lit(s: &str, p: &str) -> (r: bool) { s.contains(p) }
+#[verifier::external_body]
+pub fn str_contains_string(s: &str, p: &String) -> (r: bool) { s.contains(p.as_str()) }
+
 // TRUSTED(T3): str::parse::<i64/f64> returns Ok or Err and does not panic
 #[verifier::external_type_specification]
 #[verifier::external_body]
